@@ -224,6 +224,7 @@ package virtual
 //@   ensures own-locks-never-conflict: r0 != nil ==> r0.Owner != lTest.Owner
 //@   ensures reported-lock-overlaps: r0 != nil ==> r0.End > lTest.Start && r0.Start < lTest.End
 //@   ensures shared-locks-coexist: r0 != nil ==> r0.Type == ByteRangeLockTypeLockedExclusive || lTest.Type == ByteRangeLockTypeLockedExclusive
+//@   ensures no-conflict-only-after-scanning-the-whole-range: r0 == nil ==> leSearch == &ls.list || leSearch.lock.Start >= lTest.End
 //@ func (*ByteRangeLockSet[Owner]).Set
 //@   props C20
 //@   loop 0 invariant leTrailing != nil ==> leTrailing.lock.Type != lNew.Type && leTrailing.lock.Owner == lNew.Owner
